@@ -9,6 +9,7 @@ import Driver.Recv
 import Driver.Core
 import Driver.Mpd
 import Driver.Fault
+import Driver.Cfg
 /-! Line-protocol driver: one operation per input line, one canonical result per output line. -/
 open Drv
 
@@ -143,6 +144,7 @@ def step (st : DState2) (line : String) : DState2 × String :=
   | "seg" :: args => (st, opSeg st.core args)
   | "mpddef" :: args => defMpd st args
   | "mpd" :: args => (st, opMpd st args)
+  | "cfg" :: args => (st, opCfg args)
   | "loss" :: args => (st, opLoss args)
   | "stat" :: args => (st, opStat st.core args)
   | _ => (st, "bad-op")
